@@ -69,6 +69,11 @@ impl<'a> GeneratorState<'a> {
         }
     }
 
+    #[cfg(steux_cc6502_verif)]
+    pub(crate) fn verif_set_protected(&mut self, protected: bool) {
+        self.protected = protected;
+    }
+
     pub(crate) fn sasm(&mut self, mnemonic: AsmMnemonic) -> Result<bool, Error> {
         self.asm(mnemonic, &ExprType::Nothing, 0, false)
     }
